@@ -2,7 +2,10 @@ package rules
 
 import (
 	"go/ast"
+	"go/constant"
+	"go/token"
 	"go/types"
+	"strings"
 
 	"verif/internal/flow"
 )
@@ -240,11 +243,196 @@ func c15SessionResend(e *c15env) {
 		})
 	}
 	retKey := func(r *ast.ReturnStmt) string { return sprintf("ev:ret@%d", r.Pos()) }
+	// two-phase form: a search loop over the queue only remembers the POSITION of the first id still in
+	// pending (first = i where the lookup of the range value succeeded), the id is read again as
+	// queue[first] after the loop. The reading is as good as the looked-up id when the position was set
+	// at a successful lookup, the queue was not written in between, and the lock was not released.
+	type twoPhase struct {
+		fn        *flow.Func
+		pos       types.Object
+		ix        *ast.IndexExpr
+		read      ast.Node
+		rng       *ast.RangeStmt
+		lookups   []c15fact
+		found, at string
+	}
+	queueExpr := func(g *flow.Func, x ast.Expr) bool {
+		ts := e.trace().origins(g, x)
+		for _, t := range ts {
+			if t.expr == nil || !e.selects(t.expr, e.queueF) {
+				return false
+			}
+		}
+		return len(ts) > 0
+	}
+	var phases []*twoPhase
+	for _, g := range fns {
+		g := g
+		ast.Inspect(g.Body, func(n ast.Node) bool {
+			as, ok := n.(*ast.AssignStmt)
+			if !ok || len(as.Rhs) != 1 {
+				return true
+			}
+			ix := c15indexOf(as.Rhs[0])
+			if ix == nil || !queueExpr(g, ix.X) {
+				return true
+			}
+			id, ok := ast.Unparen(ix.Index).(*ast.Ident)
+			if !ok {
+				return true
+			}
+			pv, ok := c15objOf(g, id).(*types.Var)
+			if !ok || pv.IsField() {
+				return true
+			}
+			tp := &twoPhase{fn: g, pos: pv, ix: ix, read: as}
+			for _, d := range c15defs(g, pv) {
+				if d.rhs == nil || d.idx >= 0 || d.rng != nil {
+					return true
+				}
+				if tv, ok := g.Info.Types[d.rhs]; ok && tv.Value != nil {
+					continue // the "nothing found" value
+				}
+				kid, ok := ast.Unparen(d.rhs).(*ast.Ident)
+				if !ok {
+					return true
+				}
+				var rng *ast.RangeStmt
+				for _, kd := range c15defs(g, c15objOf(g, kid)) {
+					if kd.rng != nil && kd.key && queueExpr(g, kd.rng.X) {
+						rng = kd.rng
+					}
+				}
+				if rng == nil || tp.rng != nil && tp.rng != rng {
+					return true
+				}
+				tp.rng = rng
+			}
+			if tp.rng == nil {
+				return true
+			}
+			vid, _ := tp.rng.Value.(*ast.Ident)
+			if vid == nil {
+				return true
+			}
+			vobj := c15objOf(g, vid)
+			ast.Inspect(tp.rng.Body, func(m ast.Node) bool {
+				la, ok := m.(*ast.AssignStmt)
+				if !ok || len(la.Rhs) != 1 {
+					return true
+				}
+				lx := c15indexOf(la.Rhs[0])
+				if lx == nil || !e.selects(lx.X, e.pendingF) {
+					return true
+				}
+				if kid, ok := ast.Unparen(lx.Index).(*ast.Ident); !ok || c15objOf(g, kid) != vobj {
+					return true
+				}
+				switch len(la.Lhs) {
+				case 2:
+					if oid, ok := la.Lhs[1].(*ast.Ident); ok && oid.Name != "_" {
+						tp.lookups = append(tp.lookups, c15fact{g.VarKey(oid), flow.True})
+					}
+				case 1:
+					if oid, ok := la.Lhs[0].(*ast.Ident); ok && oid.Name != "_" {
+						tp.lookups = append(tp.lookups, c15fact{g.NilKey(oid), flow.False})
+					}
+				}
+				return true
+			})
+			if len(tp.lookups) == 0 {
+				return true
+			}
+			tp.found = sprintf("ev:found@%d", ix.Pos())
+			tp.at = sprintf("ev:twophase@%d", ix.Pos())
+			phases = append(phases, tp)
+			return true
+		})
+	}
+	phaseNode := func(st *flow.State, n ast.Node) {
+		as, ok := n.(*ast.AssignStmt)
+		if !ok {
+			return
+		}
+		for _, tp := range phases {
+			if n == tp.read {
+				st.Set(tp.at, map[bool]flow.Val{true: flow.True, false: flow.False}[st.Is(tp.found, flow.True)])
+				continue
+			}
+			for i, l := range as.Lhs {
+				x := ast.Unparen(l)
+				if ix, isIx := x.(*ast.IndexExpr); isIx {
+					x = ast.Unparen(ix.X)
+				}
+				if e.selects(x, e.queueF) {
+					st.Set(tp.found, flow.False) // the queue changed: the remembered position is stale
+				}
+				if id, isID := ast.Unparen(l).(*ast.Ident); isID && c15objOf(tp.fn, id) == tp.pos && len(as.Lhs) == len(as.Rhs) {
+					hit := false
+					if kid, ok := ast.Unparen(as.Rhs[i]).(*ast.Ident); ok {
+						for _, kd := range c15defs(tp.fn, c15objOf(tp.fn, kid)) {
+							if kd.rng == tp.rng && kd.key {
+								for _, l := range tp.lookups {
+									if st.Is(l.key, l.want) {
+										hit = true
+									}
+								}
+							}
+						}
+					}
+					st.Set(tp.found, map[bool]flow.Val{true: flow.True, false: flow.False}[hit])
+				}
+			}
+		}
+	}
+	// a test of the position against a constant on the path on which it still holds its "nothing found" value
+	phaseAssume := func(st *flow.State, cond ast.Expr, outcome bool) {
+		be, ok := ast.Unparen(cond).(*ast.BinaryExpr)
+		if !ok {
+			return
+		}
+		for _, tp := range phases {
+			for _, side := range [][2]ast.Expr{{be.X, be.Y}, {be.Y, be.X}} {
+				id, ok := ast.Unparen(side[0]).(*ast.Ident)
+				if !ok || c15objOf(tp.fn, id) != tp.pos {
+					continue
+				}
+				ktv, ok := tp.fn.Info.Types[side[1]]
+				if !ok || ktv.Value == nil {
+					continue
+				}
+				for _, fact := range st.Facts() {
+					pre := "eq:" + tp.fn.Render(id) + "=="
+					if !strings.HasPrefix(fact, pre) || !strings.HasSuffix(fact, "=T") {
+						continue
+					}
+					cur := constant.MakeFromLiteral(fact[len(pre):len(fact)-2], token.INT, 0)
+					if cur.Kind() == constant.Unknown || ktv.Value.Kind() != constant.Int {
+						continue
+					}
+					a, b := cur, ktv.Value
+					if side[0] == be.Y {
+						a, b = b, a
+					}
+					if constant.Compare(a, be.Op, b) != outcome {
+						st.Infeasible()
+					}
+				}
+			}
+		}
+	}
 	res := e.analyse(f, fns, flow.Config{
-		NoHavoc: true,
-		Inline:  e.inline(f, e.writePacket, e.getClient),
+		NoHavoc:     true,
+		AfterAssume: phaseAssume,
+		Inline:      e.inline(f, e.writePacket, e.getClient),
 		OnCall: func(st *flow.State, call *ast.CallExpr, callee types.Object, deferred bool) {
+			was := st.Is("ev:locked", flow.True)
 			e.sessLock(st, call, callee)
+			if was && !st.Is("ev:locked", flow.True) {
+				for _, tp := range phases {
+					st.Set(tp.found, flow.False) // lock released: pending may change
+				}
+			}
 			if fo, ok := callee.(*types.Func); ok {
 				for _, r := range rets[fo.Origin()] {
 					st.Set(retKey(r), flow.Unknown)
@@ -255,6 +443,7 @@ func c15SessionResend(e *c15env) {
 			if r, ok := n.(*ast.ReturnStmt); ok && !contains(f.Body, r) {
 				st.Set(retKey(r), flow.True)
 			}
+			phaseNode(st, n)
 		},
 	})
 	if res == nil {
@@ -296,6 +485,7 @@ func c15SessionResend(e *c15env) {
 			fn  *flow.Func
 			rhs ast.Expr
 			at  ast.Node
+			ctx []c15ctx
 		}
 		var ids []idAssign
 		for _, g := range fns {
@@ -310,7 +500,7 @@ func c15SessionResend(e *c15env) {
 						continue
 					}
 					if id, ok := ast.Unparen(sel.X).(*ast.Ident); ok && pt.vars[c15objOf(g, id)] {
-						ids = append(ids, idAssign{g, as.Rhs[i], as})
+						ids = append(ids, idAssign{g, as.Rhs[i], as, pt.varCtx[c15objOf(g, id)]})
 					}
 				}
 				return true
@@ -335,6 +525,7 @@ func c15SessionResend(e *c15env) {
 		for _, a := range ids {
 			it := e.trace()
 			it.live = live
+			it.ctx = append([]c15ctx(nil), a.ctx...) // a shared packet builder: the id of THIS call
 			for _, t := range it.origins(a.fn, a.rhs) {
 				switch {
 				case t.rng != nil && !t.key && isQueue(t.fn, t.rng.X):
@@ -354,11 +545,7 @@ func c15SessionResend(e *c15env) {
 			continue
 		}
 		// lookups of that id in pending: `v, ok := pending[id]` (ok must be true) or `v := pending[id]` (v must be non-nil)
-		type lookup struct {
-			key  string
-			want flow.Val
-		}
-		var lookups []lookup
+		var lookups []c15fact
 		otherLookups := 0
 		for _, g := range fns {
 			ast.Inspect(g.Body, func(n ast.Node) bool {
@@ -389,15 +576,23 @@ func c15SessionResend(e *c15env) {
 				switch len(as.Lhs) {
 				case 2:
 					if id, ok := as.Lhs[1].(*ast.Ident); ok && id.Name != "_" {
-						lookups = append(lookups, lookup{g.VarKey(id), flow.True})
+						lookups = append(lookups, c15fact{g.VarKey(id), flow.True})
 					}
 				case 1:
 					if id, ok := as.Lhs[0].(*ast.Ident); ok && id.Name != "_" {
-						lookups = append(lookups, lookup{g.NilKey(id), flow.False})
+						lookups = append(lookups, c15fact{g.NilKey(id), flow.False})
 					}
 				}
 				return true
 			})
+		}
+		for _, tp := range phases {
+			for _, t := range idTerms {
+				if t.expr == ast.Expr(tp.ix) {
+					lookups = append(lookups, c15fact{tp.at, flow.True})
+					otherLookups = 0 // the search loop's lookups are accounted for
+				}
+			}
 		}
 		if len(lookups) == 0 {
 			if otherLookups > 0 {
@@ -436,6 +631,12 @@ func c15SessionResend(e *c15env) {
 		c.Check(ok, "R-C15-3", wcons, pos(c, w.node),
 			sprintf("%d states at writePacket: lookup of the id in pending succeeded, MessageID = queue element, locked", len(states)), why, witness(bad)...)
 	}
+}
+
+// c15fact is a fact key with the value it must have.
+type c15fact struct {
+	key  string
+	want flow.Val
 }
 
 func c15indexOf(x ast.Expr) *ast.IndexExpr {
